@@ -558,11 +558,42 @@ func (m *Model) ruleOPENMODE(r *Results) {
 	// (2) open function
 	fn := a.OpenFn
 	name := m.declName(fn)
+	// flowsToReturn: the value ends up as (part of) a result of its function: directly, through a
+	// phi or an interface conversion, or through a named-result cell that a return loads
+	var flowsToReturn func(v ssa.Value, depth int, seen map[ssa.Value]bool) bool
+	flowsToReturn = func(v ssa.Value, depth int, seen map[ssa.Value]bool) bool {
+		if depth > 6 || v.Referrers() == nil || seen[v] {
+			return false
+		}
+		seen[v] = true
+		for _, ref := range *v.Referrers() {
+			switch x := ref.(type) {
+			case *ssa.Return:
+				return true
+			case *ssa.Phi, *ssa.MakeInterface, *ssa.ChangeType, *ssa.ChangeInterface:
+				if flowsToReturn(x.(ssa.Value), depth+1, seen) {
+					return true
+				}
+			case *ssa.Store:
+				if al, ok := x.Addr.(*ssa.Alloc); ok && x.Val == v && al.Referrers() != nil {
+					for _, r2 := range *al.Referrers() {
+						if ld, ok := r2.(*ssa.UnOp); ok && ld.Op == token.MUL && flowsToReturn(ld, depth+1, seen) {
+							return true
+						}
+					}
+				}
+			}
+		}
+		return false
+	}
 	errLoadedIn := func(b *ssa.BasicBlock, global string) bool {
 		for _, ins := range b.Instrs {
 			if ld, ok := ins.(*ssa.UnOp); ok {
 				if g, ok := ld.X.(*ssa.Global); ok && g.Name() == global {
-					return true
+					// (an error that is loaded but assigned to a shadowed variable is reported to nobody)
+					if flowsToReturn(ld, 0, map[ssa.Value]bool{}) {
+						return true
+					}
 				}
 			}
 		}
@@ -1372,6 +1403,38 @@ func (m *Model) ruleEVTCONV(r *Results) {
 				}
 			}
 			seenFields[fname] = true
+			// whether a field is (re)computed may depend only on the presence of xattrs: a branch on
+			// any other event field (say, "not for deletions") makes the delivered event incomplete
+			// for some rows although every assignment is right
+			for _, ct := range controllingConds(fn, st.Block()) {
+				// conditions that merely guard a panic (one side never returns) are not choices
+				aborts := false
+				for _, sc := range ct.If.Block().Succs {
+					reach := reachableFrom(sc, nil)
+					canReturn := false
+					for _, ret := range returnsOf(fn) {
+						if reach[ret.Block().Index] {
+							canReturn = true
+						}
+					}
+					if !canReturn {
+						aborts = true
+					}
+				}
+				if aborts {
+					continue
+				}
+				cdeps := map[*types.Var]bool{}
+				deps(ct.If.Cond, 0, map[ssa.Value]bool{}, cdeps)
+				var extra []string
+				for f := range cdeps {
+					if f != ftab["xattrs"] {
+						extra = append(extra, f.Name())
+					}
+				}
+				sort.Strings(extra)
+				r.check(len(extra) == 0, rule, m.declName(fn)+" / FeedEvent."+fname+" conditional only on xattrs being present", m.instrPos(ct.If), "the assignment is controlled only by the presence of xattrs", fmt.Sprintf("whether FeedEvent.%s is computed depends on event field(s) %v: for those events the xattrs (and the xattr datatype bit) are left out although the row has them", fname, extra))
+			}
 			r.check(okDeps, rule, key, m.instrPos(st), "FeedEvent."+fname+" is computed from event."+wantF.Name(), fmt.Sprintf("FeedEvent.%s is computed from event field(s) %v, want %s: the delivered event does not describe the stored row", fname, gotNames, wantF.Name()))
 			// polarity of the two selectors
 			if (fname == "Opcode" || fname == "DataType") && !strings.Contains(key, "xattr branch") {
